@@ -120,6 +120,7 @@ pub fn programs() -> Vec<Prog> {
     p.push(None, Stmt::Ret);
     v.push(Prog::new("jsrr", p, true));
     v.push(every_kind());
+    v.push(writes_halt_ahead());
     // leaves user space upwards: a main routine ending in a bare RET with R7 still at its initial
     // xFDFF (word there is 0 = a never-taken BR), so PC reaches xFE00
     let mut p = Program::default();
@@ -175,6 +176,19 @@ pub fn every_kind() -> Prog {
     p.push(Some("val"), Stmt::Fill(Lit::hex(0x0041)));
     p.push(Some("ptr"), Stmt::Fill(Lit::hex(0x3017)));
     Prog::new("every-instruction-kind", p, true)
+}
+
+/// Self-modifying program that stores a HALT word over an instruction it is about to reach.
+pub fn writes_halt_ahead() -> Prog {
+    let mut p = Program::default();
+    p.push(Some("first"), Stmt::Mem(PcRel::Ld, 0, lbl("haltw")));
+    p.push(None, Stmt::Mem(PcRel::St, 0, lbl("loop")));
+    p.push(None, Stmt::Add(1, 1, Src2::Imm(Lit::dec(1))));
+    p.push(Some("loop"), Stmt::Add(2, 2, Src2::Imm(Lit::dec(1))));
+    p.push(Some("after"), Stmt::Add(3, 3, Src2::Imm(Lit::dec(1))));
+    p.push(Some("end"), Stmt::Named(0x25, "halt"));
+    p.push(Some("haltw"), Stmt::Fill(Lit::hex(0xF025)));
+    Prog::new("writes-halt-ahead", p, true)
 }
 
 /// How the script ends.
